@@ -36,3 +36,6 @@ func VerifSimCounters(m *Module) (workers, tasks, microtasks int32, ctrl bool) {
 func VerifSimTaskLimits() (timeslotWait, executionWait, defaultDelay time.Duration) {
 	return maxTimeslotWait, maxExecutionWait, defaultMaxDelay
 }
+
+// VerifSimTaskExecuting reads a task's executing flag without locking.
+func VerifSimTaskExecuting(t *Task) bool { return t.executing }
